@@ -194,7 +194,11 @@ pub fn check_c05_like(case: &CliCase, cx: &mut CaseCtx, check_rejects_content: b
                     if v.len() != 1 {
                         return Verdict::Fail(format!("reject {:?} parses to {} file patches", p, v.len()));
                     }
-                    let names_ok = [&v[0].old_name, &v[0].new_name].iter().any(|n| n.as_ref().map_or(false, |n| n.as_slice() == op.target.as_bytes() || n.as_slice() == op.new_path.as_bytes() || n.as_slice() == op.old_path.as_bytes()));
+                    let names_ok = [&v[0].old_name, &v[0].new_name].iter().any(|n| n.as_ref().map_or(false, |n| {
+                        // names are paths: "a//b" and "a/./b" spell "a/b"
+                        let n = ws::norm_rel(&String::from_utf8_lossy(n));
+                        n == op.target || n == op.new_path || n == op.old_path
+                    }));
                     if !names_ok {
                         return Verdict::Fail(format!("reject {:?} names {:?}/{:?}, not the patched file {:?}", p, v[0].old_name, v[0].new_name, op.target));
                     }
